@@ -7,7 +7,7 @@ Local Open Scope nat_scope.
 Lemma inv_step1 c s : Inv c s -> enabled s 1 = true -> Inv c (fst (tstep c s 1)).
 Proof.
   intros I E. unfold tstep, enabled in *.
-  destruct I as [I1 I2 I3 I4 I5 I6 I7 I8 I9 I10 I11 I12 I13 I14 I15 I16 I17 I18 I19 I20 I21 I22 I23 I24 I25 [I26 I26b] [I27 I27b] I28 I29 I30 I31].
+  destruct I as [I1 I2 I3 I4 I5 I6 I7 I8 I9 I10 I11 I12 I13 I14 I15 I16 I17 I18 I19 I20 I21 I22 I23 I24 I25 [I26 I26b] [I27 I27b] I28 I29 I30 I31 I32 I33 I34 I35].
   unfold N, expected, wout in *.
   assert (CV : cv c <= 1) by (unfold cv, b2n; destruct (is_conv c); lia).
   assert (NF1 : nfire s <= 1) by (destruct (slot s); cbn [rdy] in I6; lia).
@@ -30,6 +30,7 @@ Proof.
   all: try (specialize (I23 eq_refl)).
   all: try (specialize (I3 eq_refl)).
   all: try (destruct I21 as [I21|I21]).
+  all: try match goal with T0 : _ = IClaim _ :: _ |- _ => try (rewrite I26b in * by lia; cbn [rn] in * ); try (rewrite I27b in * by lia; cbn [rn] in * ) end.
   all: try (unfold hb, cv, is_conv in *; rewrite AD in *; cbn [has_helper b2n Nat.mul] in * ).
   all: constructor; unfold N, expected, wout; red1; try (unfold hb, cv, is_conv; rewrite AD; cbn [has_helper b2n Nat.mul]); redc;
        cbn [conv_result]; rewrite ?outcome_eqb_refl; redc.
